@@ -382,7 +382,17 @@ def binary_ops():
                                 ('1.5 - f', 1.5 - f, [1.5 - t for t in fv],
                                  flip[curv[n1]]),
                                 ('3 + f', 3 + f, [3 + t for t in fv],
-                                 curv[n1])):
+                                 curv[n1]),
+                                ('f * 2.5', f * 2.5, [2.5 * t for t in fv],
+                                 curv[n1]),
+                                ('-1.5 * f', -1.5 * f, [-1.5 * t for t in fv],
+                                 flip[curv[n1]]),
+                                ('f * matrix([-2.0])', f * matrix([-2.0]),
+                                 [-2.0 * t for t in fv], flip[curv[n1]]),
+                                ('matrix([3.0]) * f', matrix([3.0]) * f,
+                                 [3.0 * t for t in fv], curv[n1]),
+                                ('f * 0', f * 0, [0.0 for t in fv], 'a'),
+                                ('0.0 * f', 0.0 * f, [0.0 for t in fv], 'a')):
             count['binary'] = count.get('binary', 0) + 1
             if not close(list(r.value()), want) or (
                     r._isconvex(), r._isconcave()) != flags_of[cv]:
